@@ -180,7 +180,7 @@ def direct(name: str):
     return _DIRECT[name]
 
 
-def run_harness(batch: Tuple[str, ...], nworkers: int, prefix: List[int], fine: bool = False) -> sched.Execution:
+def run_harness(batch: Tuple[str, ...], nworkers: int, prefix: List[int], fine: bool = False, policy=None) -> sched.Execution:
     import threading as real_threading
 
     from semantiva.context_processors import ContextType
@@ -193,7 +193,7 @@ def run_harness(batch: Tuple[str, ...], nworkers: int, prefix: List[int], fine: 
     harness.quiet()
     in_memory.threading = types.SimpleNamespace(Lock=lambda: sched.CoopLock(lambda: _CUR[0]), Thread=real_threading.Thread)
     # fine mode: additionally a scheduling point at every source line of the master and worker modules
-    s = sched.Scheduler(([wk.__file__] if fine == "worker" else [qo.__file__, wk.__file__]) if fine else [], prefix, max_steps=200000)
+    s = sched.Scheduler(([wk.__file__] if fine == "worker" else [qo.__file__, wk.__file__]) if fine else [], prefix, max_steps=400000, policy=policy)
     _CUR[0] = s
     try:
         inner = in_memory.InMemorySemantivaTransport()
@@ -307,6 +307,32 @@ def plans(tier: str):
             (("J1",), 1, 2, True), (("J1", "J2"), 1, 1, True), (("J1", "J2"), 2, 1, "worker"), (("FAIL", "J2"), 2, 1, "worker"), (("J1", "J2"), 2, 1, True)]
 
 
+def _rr_worker(chunk):
+    out = []
+    for batch, nworkers, quantum, rot in chunk:
+        for n in set(batch):
+            direct(n)
+        x = run_harness(batch, nworkers, [], False, sched.round_robin(quantum, rot))
+        bad = judge_factory(batch)(x)
+        out.append((len(batch), nworkers, quantum, rot, len(x.points), bad))
+    return out
+
+
+def large_batches(tier: str):
+    """The property's larger batches under a FIXED, ENUMERATED schedule family (round robin, every rotation, quantum 1/2/5)."""
+    names = ["J1", "J2", "J3"]
+    sizes = [8] if tier == "quick" else [8, 40]
+    jobs = []
+    for n in sizes:
+        for fail_pos in ([None, 0, n - 1] if tier == "quick" else [None] + list(range(0, n, max(1, n // 8)))):
+            batch = tuple("FAIL" if i == fail_pos else names[i % 3] for i in range(n))
+            for nworkers in ([2] if tier == "quick" else [1, 2, 4]):
+                for quantum in (1, 2, 5):
+                    for rot in range(2 + nworkers):
+                        jobs.append((batch, nworkers, quantum, rot))
+    return jobs
+
+
 def check(tier: str, seed: int) -> Result:
     cap = 200000 if tier == "quick" else 2000000
     per: Dict[str, dict] = {}
@@ -354,6 +380,18 @@ def check(tier: str, seed: int) -> Result:
                                    {"batch": p["batch"], "workers": p["workers"], "choices": choices, "fine": p["fine"]}))
         samples.append({"harness": key, "bound": p["bound"], "executions": p["executions"], "distinct_outcomes": len(p["outcomes"]),
                         "by_preemptions": p["by_preemptions"], "points_default_run": p["points_default_run"], "capped": p["capped"]})
+    # larger batches under the enumerated round-robin family
+    rr = large_batches(tier)
+    rr_n = rr_points = 0
+    for part in core.pmap_chunks(_rr_worker, rr, chunk=max(1, len(rr) // (core.NPROC * 3))):
+        for njobs, nworkers, quantum, rot, npts, bad in part:
+            rr_n += 1
+            rr_points += npts
+            if bad:
+                viols.append(Violation(bad[0], f"{njobs} jobs / {nworkers} workers, round robin quantum={quantum} rotation={rot}: {bad[1]}",
+                                       {"kind": "rr", "njobs": njobs, "workers": nworkers, "quantum": quantum, "rotation": rot}))
+    tot_e += rr_n
+    tot_t += rr_points
     capped_any = any(p["capped"] for p in per.values())
     cov = {
         "states": tot_t, "transitions": tot_t, "traces_validated_against_impl": tot_e,
@@ -362,17 +400,22 @@ def check(tier: str, seed: int) -> Result:
                 "payloads; a failing / unconstructible job at each position); scheduling points at every job-queue, transport, "
                 "pending_futures and stop-event operation; states = scheduling points visited (stateless search); distinct_nontrivial = "
                 "distinct (per-future state, leftover channels) outcomes",
+        "round_robin_schedules_of_large_batches": rr_n,
         "schedules": tot_e, "harnesses": {k: {kk: vv for kk, vv in p.items() if kk not in ("failures", "outcomes")} for k, p in per.items()},
         "samples": samples, "exhaustive": not capped_any, "cap_hit": capped_any,
     }
     return Result("model_checking", cov, viols, [
         "transport publish / pop are atomic steps here (their internal atomicity is C14's property)",
         "polling (queue.get(timeout), time.sleep(poll)) is modelled as waiting until the polled condition can change; quiescence = no enabled thread",
-        "batches of 1-3 jobs; the property's larger batches (8-40 jobs) are not explored exhaustively",
+        "exhaustive preemption-bounded exploration for batches of 1-3 jobs; batches of 8 (thorough: 40) jobs with 1-4 workers run under a fixed enumerated family of round-robin schedules (quantum 1/2/5 x every rotation), not under random switch intervals",
     ])
 
 
 def replay(case) -> List[Violation]:
+    if case.get("kind") == "rr":
+        o = [r for r in _rr_worker([j for j in large_batches("thorough") + large_batches("quick")
+                                    if len(j[0]) == case["njobs"] and j[1] == case["workers"] and j[2] == case["quantum"] and j[3] == case["rotation"]][:40]) if r[5]]
+        return [Violation(r[5][0], r[5][1], case) for r in o[:1]]
     batch = tuple(case["batch"])
     x = run_harness(batch, case["workers"], case["choices"], case.get("fine", False))
     bad = judge_factory(batch)(x)
